@@ -658,7 +658,7 @@ func (r *vrng) hexField(nbytes int) *vS {
 	case 0:
 		s.Suf = hex.EncodeToString([]byte{"0123456789abcdefABCDEF"[r.below(22)]}) // odd length
 	case 1:
-		s.Suf = hex.EncodeToString([]byte{"gGxX -_/:@`\x00\xff"[r.below(14)], '0'}) // invalid digit
+		s.Suf = hex.EncodeToString([]byte{"gGxX -_/:@`\x00\xff"[r.below(13)], '0'}) // invalid digit
 	case 2:
 		s.Pre = hex.EncodeToString([]byte("0x"))
 	case 3:
